@@ -185,8 +185,21 @@ def parse_cases_output(text):
     return out
 
 
+# a tree on which the harness hangs must not make a check run for hours: after one harness wall-clock limit (or a harness
+# that reports `notrun slow-tree` itself after several per-case timeouts) later batches are not run; the cases already
+# run carry the verdict (`crash timeout` ...), the others are dropped by check.evaluate
+_SLOW = {"walls": 0, "notrun": 0}
+NOTRUN = ["notrun slow-tree"]
+
+
+def slow_tree():
+    return _SLOW["walls"] >= 1 or _SLOW["notrun"] > 0
+
+
 def run_harness(exe, conf, cases, rundir, timeout=900, args=()):
     os.makedirs(rundir, exist_ok=True)
+    if slow_tree():
+        return {c.id: list(NOTRUN) for c in cases}
     env = {"ASAN_OPTIONS": "detect_leaks=0:abort_on_error=0:allocator_may_return_null=1",
            "UBSAN_OPTIONS": "print_stacktrace=0"}
     class _P:
@@ -203,11 +216,14 @@ def run_harness(exe, conf, cases, rundir, timeout=900, args=()):
         p.stderr = "harness wall-clock limit of %ss reached" % timeout
         p.returncode = -9
         subprocess.run(["pkill", "-9", "-f", exe], capture_output=True)
+        _SLOW["walls"] += 1
     res = parse_cases_output(p.stdout)
+    _SLOW["notrun"] += sum(1 for v in res.values() if [l.strip() for l in v if l.strip()] == NOTRUN)
     if p.returncode != 0 or len(res) != len(cases):
         missing = [c.id for c in cases if c.id not in res]
         for m in missing:
-            res[m] = ["crash harness-process rc=%d" % p.returncode]
+            # after a wall-clock limit only the first missing case is a verdict (it was running); the rest never ran
+            res[m] = ["crash harness-process rc=%d" % p.returncode] if (p.returncode != -9 or m == missing[0]) else list(NOTRUN)
         log("harness rc=%d, %d/%d cases returned; stderr tail: %s" % (p.returncode, len(res) - len(missing), len(cases), p.stderr[-500:]))
     return res
 
